@@ -86,6 +86,65 @@ func init() {
 		} else {
 			return fmt.Errorf("PopulateFromUQUIC not found")
 		}
+		// shape fact: does newUClientConnection recompute s.config from the populated transport parameters
+		// (`s.config = f(…, params)`) BEFORE s.preSetup() builds the enforcing components from s.config?
+		{
+			uf, err := parser.ParseFile(c.Fset, filepath.Join(c.Repo, "u_connection.go"), nil, 0)
+			if err != nil {
+				return err
+			}
+			var body *ast.BlockStmt
+			ast.Inspect(uf, func(n ast.Node) bool {
+				vs, ok := n.(*ast.ValueSpec)
+				if ok && len(vs.Names) == 1 && vs.Names[0].Name == "newUClientConnection" && len(vs.Values) == 1 {
+					if fl, ok := vs.Values[0].(*ast.FuncLit); ok {
+						body = fl.Body
+					}
+				}
+				if fd, ok := n.(*ast.FuncDecl); ok && fd.Name.Name == "newUClientConnection" {
+					body = fd.Body
+				}
+				return true
+			})
+			if body == nil {
+				return fmt.Errorf("newUClientConnection not found in u_connection.go")
+			}
+			isSel := func(e ast.Expr, x, sel string) bool {
+				se, ok := e.(*ast.SelectorExpr)
+				if !ok || se.Sel.Name != sel {
+					return false
+				}
+				id, ok := se.X.(*ast.Ident)
+				return ok && id.Name == x
+			}
+			preSetupPos, assignPos := token.NoPos, token.NoPos
+			ast.Inspect(body, func(n ast.Node) bool {
+				switch x := n.(type) {
+				case *ast.CallExpr:
+					if isSel(x.Fun, "s", "preSetup") && preSetupPos == token.NoPos {
+						preSetupPos = x.Pos()
+					}
+				case *ast.AssignStmt:
+					if len(x.Lhs) == 1 && len(x.Rhs) == 1 && isSel(x.Lhs[0], "s", "config") {
+						if call, ok := x.Rhs[0].(*ast.CallExpr); ok {
+							for _, a := range call.Args {
+								if id, ok := a.(*ast.Ident); ok && id.Name == "params" && assignPos == token.NoPos {
+									assignPos = x.Pos()
+								}
+							}
+						}
+					}
+				}
+				return true
+			})
+			if preSetupPos == token.NoPos {
+				return fmt.Errorf("newUClientConnection: no call of s.preSetup()")
+			}
+			covers := assignPos != token.NoPos && assignPos < preSetupPos
+			w.P("/-- u_connection.go newUClientConnection: `s.config = f(…, params)` precedes `s.preSetup()` (the enforced")
+			w.P("    limits are derived from a Config recomputed from the advertised transport parameters) -/")
+			w.P("def specConfigCoversAdvertised : Bool := %v", covers)
+		}
 		// the built-in specs
 		fn := filepath.Join(c.Repo, "u_parrot.go")
 		af, err := parser.ParseFile(c.Fset, fn, nil, 0)
